@@ -5,7 +5,7 @@ P=$1; shift
 D=$(mktemp -d /tmp/pyvc-scratch.XXXXXX)
 cp -r /repo/mapproxy "$D/mapproxy"
 ( cd "$D" && patch -p1 -s < "$P" ) || { echo "patch failed"; rm -rf "$D"; exit 2; }
-cd /verif && PYVC_OUT="$D/out" PYVC_REPO="$D" timeout ${TRY_TIMEOUT:-900} ./check "$@"; RC=$?
+cd ${VERIF_ROOT:-/verif} && PYVC_OUT="$D/out" PYVC_REPO="$D" timeout ${TRY_TIMEOUT:-900} ./check "$@"; RC=$?
 [ -n "$KEEP_OUT" ] && rm -rf "$KEEP_OUT" && cp -r "$D/out" "$KEEP_OUT"
 rm -rf "$D"
 exit $RC
